@@ -8,8 +8,12 @@ import betterproto
 from betterproto.compile import naming
 
 from .. import absval as av
+from ..common import MachineryError
 
-LEVEL = "exploration"
+MC_INVS = ["NamesAreSafe", "EnumMembersAreSafe", "FieldNameIdempotent", "ClassNameIdempotentOutsideFinding", "ProtoNameMapsBack",
+           "SnakeKeyMapsBack", "CamelKeyMapsBackOutsideFinding", "KeysNonEmpty", "TokensCoverInput"]
+
+LEVEL = "model_checking"
 ALPHA = "abAB01_"
 CORPUS = ["address_line_1", "ipv4_address", "x_y_z", "HTTPStatus", "userID", "user_id", "URL", "url2", "a", "_", "__", "_private", "trailing_",
           "double__underscore", "camelCase", "PascalCase", "SCREAMING_CASE", "mixed_Case_Name", "v1beta", "sha256sum", "peerIDs", "foo_1_bar",
@@ -18,7 +22,7 @@ CORPUS = ["address_line_1", "ipv4_address", "x_y_z", "HTTPStatus", "userID", "us
 
 def name_event(x):
     ev = {"x": av.cps(x), "res": "ok", "field": [], "field2": [], "method": [], "method2": [], "class": [], "class2": [], "enum_member": [],
-          "back_orig": True, "back_snake": True, "back_camel": True, "keys": [], "case": {"x": x}}
+          "back_orig": True, "back_snake": True, "back_camel": True, "keys": [], "ksnake": [-1], "kcamel": [-1], "case": {"x": x}}
     try:
         f = naming.pythonize_field_name(x)
         ev["field"], ev["field2"] = av.cps(f), av.cps(naming.pythonize_field_name(f))
@@ -33,6 +37,8 @@ def name_event(x):
             ks = list(msg.to_dict(casing=betterproto.Casing.SNAKE))
             kc = list(msg.to_dict(casing=betterproto.Casing.CAMEL))
             ev["keys"] = [av.cps(k) for k in ks + kc]
+            if len(ks) == 1 and len(kc) == 1:
+                ev["ksnake"], ev["kcamel"] = av.cps(ks[0]), av.cps(kc[0])
             ev["back_snake"] = len(ks) == 1 and getattr(C().from_dict({ks[0]: "v"}), f) == "v"
             ev["back_camel"] = len(kc) == 1 and getattr(C().from_dict({kc[0]: "v"}), f) == "v"
             ev["back_orig"] = getattr(C().from_dict({x: "v"}), f) == "v"
@@ -58,6 +64,15 @@ def run(ctx):
                 "through from_dict; non-trivial = name is not already lower-case alphabetic; distinct by identifier") % (n, ", longer ones sampled" if quick else "")
     ctx.assumptions = ["keyword.kwlist of the running Python is the set of reserved words (passed to the spec as data); soft keywords (match, case, type, _) are legal identifiers and only used as inputs",
                        "ASCII identifiers only (protoc accepts nothing else)"]
+    # (1) the design: C19 model-checked on the faithful casing model for every identifier up to a length bound
+    cfg = ("SPECIFICATION Spec\nCONSTANTS\n  Alpha = {97, 115, 105, 65, 83, 49, 95}\n  MaxLen = %d\n" % (6 if quick else 8) +
+           "".join("INVARIANT %s\n" % i for i in MC_INVS) + "CHECK_DEADLOCK FALSE\n")
+    ctx.mc("MC_Casing", cfg, name="MC_Casing", expect_actions=("Grow",), timeout=3000)
+    # negative control: without the recorded finding the camelCase theorem must fail on the model (the invariants are not vacuous)
+    r = ctx.mc("MC_Casing", "SPECIFICATION Spec\nCONSTANTS\n  Alpha = {97, 49, 95}\n  MaxLen = 4\nINVARIANT CamelKeyAlwaysMapsBack\nCHECK_DEADLOCK FALSE\n",
+               name="MC_Casing_neg", allow_violation=True, coverage=False)
+    if r.violated != "CamelKeyAlwaysMapsBack":
+        raise MachineryError("negative control: MC_Casing no longer finds the camelCase key that loses a word boundary")
     xs = list(idents(n))
     if quick:
         allsix = list(idents(6))
@@ -72,9 +87,16 @@ def run(ctx):
         ctx.count_case(x, not (x.isalpha() and x.islower()))
     ctx.sample({"identifier": "address_line_1", "event": {k: (av.uncps(v) if isinstance(v, list) and v and isinstance(v[0], int) else v)
                                                             for k, v in name_event("address_line_1").items() if k not in ("case", "keys")}})
-    ctx.validate("Trace_Naming", events, header={"keywords": [av.cps(k) for k in keyword.kwlist]}, shard=8000)
+    ctx.validate("Trace_Naming", events, header={"keywords": [av.cps(k) for k in keyword.kwlist], "enum_name": av.cps("Enum")}, shard=8000)
+    drift = sorted(set((i, tuple(d)) for i, d in ctx.drift.get("Trace_Naming", [])))
+    byid = {e["id"]: e for e in events}
+    ctx.notes["model_drift_cases"] = len(drift)
+    ctx.notes["model_drift_samples"] = [{"identifier": byid[i]["case"]["x"], "differs": d} for i, d in drift[:5]] if drift else []
+    if drift:
+        print("NOTE: on %d of %d identifiers the code's names differ from spec/Casing.tla (model drift; criteria are decided on the real outputs)" % (len(drift), len(xs)))
     ctx.notes["identifiers"] = len(xs)
-    ctx.notes["explanation"] = "exhaustive enumeration of the bounded identifier space; criteria evaluated by TLC on spec/Naming.tla"
+    ctx.assumptions.append("spec/Casing.tla is a faithful model of the present casing algorithm: the theorems are model-checked on it and the code is compared with it on every identifier (model_drift_cases); the verdicts themselves use only the postconditions of spec/Naming.tla")
+    ctx.notes["explanation"] = "TLC model-checks the C19 theorems on spec/Casing.tla over the bounded identifier space; the code is run on the same space (and beyond) and its outputs judged by TLC against spec/Naming.tla"
 
 
 def redrive(ev):
